@@ -476,6 +476,194 @@ pub fn rejoin_outcome(c: &RejoinCase) -> Outcome {
     o
 }
 
+// --------------------------------------------------------------------------------------------
+// a peer departs and the sender has observed it: the rotation continues over the others
+
+#[derive(Debug, Clone, Serialize, Deserialize, PartialEq, Eq, Hash)]
+pub struct DepartCase {
+    pub kind: Kind,
+    /// connected peers before the departure (2..=5)
+    pub peers: usize,
+    /// successful sends before the departure
+    pub warm: usize,
+    /// who departs (index; REQ with `how` 0/1: the peer holding the outstanding request)
+    pub depart: usize,
+    /// 0 = the peer closes (EOF) and the sender reads that; 1 = the read fails (reset) and the
+    /// sender reads that; 2 = writes towards it fail (observed by the send that meets it).
+    /// PUSH never reads, so 0/1 mean 2 there.
+    pub how: u8,
+    /// sends after the departure, in multiples of the number of remaining peers
+    pub rounds: usize,
+    /// the peers announce an empty Identity
+    pub empty_identity: bool,
+}
+
+pub fn depart_outcome(c: &DepartCase) -> Outcome {
+    let mut o = Outcome::new(hash_of(c));
+    o.nontrivial = true;
+    o.class("peer-departs-and-the-sender-has-seen-it");
+    o.class(format!("depart-{}-how-{}", c.kind.name(), c.how));
+    let c2 = c.clone();
+    let (r, panics) = capture_panics(|| {
+        run_sim(async move {
+            let c = c2;
+            let kind = c.kind;
+            let who = kind.name();
+            let mut f: Vec<Failure> = vec![];
+            let mut observed = false;
+            let mut sim = Sim::new();
+            let s = sim.socket(kind, None);
+            let n = c.peers.clamp(2, 5);
+            let mut links: Vec<Link> = vec![];
+            for _ in 0..n {
+                match crate::simx::attach_raw(&mut sim, s, if c.empty_identity { Some(&[][..]) } else { None }).await {
+                    Ok((l, _)) => links.push(l),
+                    Err(e) => {
+                        fail!(f, format!("C10/{}/setup", who), "{}", e);
+                        return (f, observed);
+                    }
+                }
+            }
+            let count = |l: &Link| l.lib_messages_prefix().map(|x| x.0.len()).unwrap_or(0);
+            // one send; returns Ok(Some(target)) on success, Ok(None) when the send failed
+            macro_rules! one_send {
+                ($tag:expr, $answer:expr) => {{
+                    let before: Vec<usize> = links.iter().map(|l| count(l)).collect();
+                    let a = sim.send(s, &[$tag.into_bytes()]);
+                    match sim.run(a).await {
+                        Ok(Some(Out::Send(Ok(())))) => {
+                            let grew: Vec<usize> = (0..links.len()).filter(|j| count(&links[*j]) != before[*j]).collect();
+                            if grew.len() != 1 {
+                                Err(grew)
+                            } else {
+                                if kind == Kind::Req && $answer {
+                                    links[grew[0]].raw_send_now(&[vec![], b"ans".to_vec()]);
+                                    let r = sim.recv(s);
+                                    let _ = sim.run(r).await;
+                                }
+                                Ok(Some(grew[0]))
+                            }
+                        }
+                        Ok(Some(Out::Send(Err(_)))) => Ok(None),
+                        _ => Ok(None),
+                    }
+                }};
+            }
+            for i in 0..c.warm {
+                match one_send!(format!("warm-{}", i), true) {
+                    Ok(Some(_)) => {}
+                    other => {
+                        fail!(f, format!("C10/{}/send-fails-with-connected-peers", who), "warm-up send #{} over {} healthy peers: {:?}", i, n, other);
+                        return (f, observed);
+                    }
+                }
+            }
+            let how = if kind == Kind::Push { 2 } else { c.how };
+            let mut gone = c.depart % n;
+            match how {
+                0 | 1 => {
+                    if kind == Kind::Req {
+                        // the peer holding the outstanding request departs without answering
+                        match one_send!("held".to_string(), false) {
+                            Ok(Some(j)) => gone = j,
+                            other => {
+                                fail!(f, "C10/REQ/send-fails-with-connected-peers", "{:?}", other);
+                                return (f, observed);
+                            }
+                        }
+                    }
+                    links[gone].to_lib.end_after_all(if how == 0 { crate::pipe::ReadEnd::Eof } else { crate::pipe::ReadEnd::Err(std::io::ErrorKind::ConnectionReset) });
+                    // the application asks for a message: that is how the sender sees the end
+                    let r = sim.recv(s);
+                    let _ = sim.settle().await;
+                    if kind == Kind::Req {
+                        match sim.take(r) {
+                            Some(Out::Recv(Err(_))) => {}
+                            other => {
+                                fail!(f, "C10/REQ/recv-after-peer-end", "the peer holding the request ended; recv gave {:?}", other.map(|o| o.err_text().map(|s| s.to_string())));
+                                return (f, observed);
+                            }
+                        }
+                    } else if !sim.done(r) {
+                        sim.cancel(r);
+                    }
+                    if links[gone].to_lib.end_reported() == 0 {
+                        // the sender has not looked at that connection: nothing observed yet
+                        return (f, observed);
+                    }
+                }
+                _ => {
+                    links[gone].from_lib.break_writer(std::io::ErrorKind::BrokenPipe);
+                    // sends until one has met the dead connection (at most one round)
+                    let fw = links[gone].from_lib.failed_writes();
+                    for i in 0..n {
+                        let _ = one_send!(format!("meet-{}", i), true);
+                        if links[gone].from_lib.failed_writes() != fw {
+                            break;
+                        }
+                    }
+                    if links[gone].from_lib.failed_writes() == fw {
+                        fail!(f, format!("C10/{}/rotation-not-strict", who), "{} sends over {} peers never tried peer {}", n, n, gone);
+                        return (f, observed);
+                    }
+                }
+            }
+            observed = true;
+            // from here on the connected peers are the others
+            let live: Vec<usize> = (0..n).filter(|j| *j != gone).collect();
+            let gone_before = links[gone].lib_traffic_len();
+            let want = c.rounds.max(1) * live.len();
+            let mut targets: Vec<usize> = vec![];
+            let mut failed = 0usize;
+            let mut i = 0;
+            while targets.len() < want && i < want + 3 {
+                i += 1;
+                match one_send!(format!("job-{}", i), true) {
+                    Ok(Some(j)) => {
+                        if j == gone {
+                            fail!(f, format!("C10/{}/successful-send-reached-a-departed-peer", who), "send #{} after the departure of peer {} (how {}) returned Ok and was written to that peer's connection", i, gone, how);
+                            return (f, observed);
+                        }
+                        targets.push(j);
+                    }
+                    Ok(None) => failed += 1,
+                    Err(grew) => {
+                        fail!(f, format!("C10/{}/successful-send-reached-no-connected-peer", who), "send #{} after the departure of peer {} returned Ok; connected peers that received it: {:?}; the departed connection received {} bytes", i, gone, grew, links[gone].lib_traffic_len() - gone_before);
+                        return (f, observed);
+                    }
+                }
+            }
+            if failed > 0 {
+                fail!(f, format!("C10/{}/send-fails-with-connected-peers", who), "{} of {} sends failed after peer {} had departed and the sender had seen it, with {} healthy peers connected", failed, i, gone, live.len());
+            }
+            for w in targets.windows(live.len()) {
+                let mut t = w.to_vec();
+                t.sort();
+                t.dedup();
+                if t.len() != live.len() {
+                    fail!(f, format!("C10/{}/rotation-not-strict", who), "after peer {} departed, {} consecutive successful sends over the {} remaining peers reached {:?}", gone, live.len(), live.len(), w);
+                    break;
+                }
+            }
+            if links[gone].lib_traffic_len() != gone_before {
+                fail!(f, format!("C10/{}/message-written-to-a-departed-peer", who), "{} bytes", links[gone].lib_traffic_len() - gone_before);
+            }
+            (f, observed)
+        })
+    });
+    if let Some((f, observed)) = r {
+        o.failures = f;
+        if observed {
+            o.class("departure-observed-then-rotation-checked");
+            o.class(format!("departure-observed-{}-how-{}", c.kind.name(), c.how));
+        }
+    }
+    for p in panics {
+        o.fail(format!("C10/panic/{}", panic_sig(&p)), p);
+    }
+    o
+}
+
 pub fn gen_rr(s: &mut Src<'_>, max_exp: usize) -> RrCase {
     let kind = s.pick(&[Kind::Push, Kind::Dealer, Kind::Req]);
     let initial_peers = s.pick(&[0usize, 1, 2, 2, 3, 3, 4, 5]);
@@ -519,6 +707,27 @@ pub fn run(ctx: &Ctx) -> (Report, PropertyMeta) {
         }
         let r = run_cases(ctx, "rejoin", &rc, rejoin_outcome);
         report.exhaustive_parts.push(format!("PUSH/DEALER/REQ x 0..2 bystanders x a peer with an announced identity coming back while its old connection is idle / ended / ended-but-writable / already dropped after a failed write: {} cases", rc.len()));
+        report.merge(r);
+    }
+    {
+        // a departure the sender has seen: every kind x 2..5 peers x who x how x warm-up length
+        let mut dc = vec![];
+        for kind in [Kind::Push, Kind::Dealer, Kind::Req] {
+            for peers in 2..=5usize {
+                for depart in 0..peers {
+                    for how in 0..3u8 {
+                        if kind == Kind::Push && how != 2 {
+                            continue;
+                        }
+                        for warm in [0usize, 1, peers, peers + 1, 2 * peers + 1] {
+                            dc.push(DepartCase { kind, peers, warm, depart, how, rounds: 3, empty_identity: (depart + warm) % 3 == 0 });
+                        }
+                    }
+                }
+            }
+        }
+        let r = run_cases(ctx, "depart", &dc, depart_outcome);
+        report.exhaustive_parts.push(format!("PUSH/DEALER/REQ x 2..5 peers x each peer departing (closed / reset and read by the sender, or failing writes met by a send) x 5 warm-up lengths, then 3 rounds over the remaining peers: {} cases", dc.len()));
         report.merge(r);
     }
     let mut cases = vec![];
@@ -596,6 +805,7 @@ pub fn run(ctx: &Ctx) -> (Report, PropertyMeta) {
         crate::fuzzing::campaign(ctx, &mut report, "sim", 180);
     }
     let total = report.evaluations;
+    health_abs(&mut report, "departure-observed-then-rotation-checked", 300);
     health(&mut report, "rotation-window-checked", total, 200);
     health(&mut report, "joiner-window-checked", total, 50);
     health_abs(&mut report, "join-while-send-in-flight", 50);
@@ -603,7 +813,7 @@ pub fn run(ctx: &Ctx) -> (Report, PropertyMeta) {
 
     let meta = PropertyMeta {
         level: "exploration",
-        rule: "proptest histories on real PUSH, DEALER and REQ sockets with 0..6 raw peers joining between and during sends, message shapes up to 256 KiB, per-connection write windows (open, k-byte partial writes, stalled-then-released); for REQ the raw peer answers so that the next send is legal. Oracle: with no peer send fails with ReturnToSender carrying the untouched message and no wire grows; when send returns Ok, at that step exactly one connection's wire has grown since the call started, by exactly the reference encoding of the message (complete, not merely buffered); over any stretch with a stable set of n peers every n consecutive successful sends reach n different connections; a peer that joined is served within the next n sends that start after its join. Non-trivial = n >= 2 with more than n sends, or a join with sends, or a write window; distinct by case".into(),
+        rule: "proptest histories on real PUSH, DEALER and REQ sockets with 0..6 raw peers joining between and during sends, message shapes up to 256 KiB, per-connection write windows (open, k-byte partial writes, stalled-then-released); for REQ the raw peer answers so that the next send is legal. Oracle: with no peer send fails with ReturnToSender carrying the untouched message and no wire grows; when send returns Ok, at that step exactly one connection's wire has grown since the call started, by exactly the reference encoding of the message (complete, not merely buffered); over any stretch with a stable set of n peers every n consecutive successful sends reach n different connections; a peer that joined is served within the next n sends that start after its join; after a peer has departed and the sender has seen it (read its end or reset, or met its failing writes) every further send succeeds, reaches exactly one of the remaining peers in strict rotation, and nothing is written to the departed connection. Non-trivial = n >= 2 with more than n sends, or a join with sends, or a write window; distinct by case".into(),
         assumptions: vec!["re-joining under an identity whose stale entry is still queued is not generated (the statement quantifies over joins)".into()],
         exhaustive: false,
     };
@@ -614,6 +824,7 @@ pub fn replay(_ctx: &Ctx, kind: &str, case: &Value) -> Vec<Failure> {
     match kind {
         "rr" => parse_case::<RrCase>(case).map(|c| rr_outcome(&c).failures),
         "rejoin" => parse_case::<RejoinCase>(case).map(|c| rejoin_outcome(&c).failures),
+        "depart" => parse_case::<DepartCase>(case).map(|c| depart_outcome(&c).failures),
         _ => Err(vec![Failure::new("replay/unknown-kind", kind.to_string())]),
     }
     .unwrap_or_else(|e| e)
